@@ -217,3 +217,35 @@ def print_cases(tier):
     three = PRINT_ARGS if tier == "thorough" else PRINT_ARGS_SMALL
     tuples += [(a, b, c) for a in three for b in three for c in three]
     return [(t, sep, end) for t in tuples for sep in PRINT_SEPS for end in PRINT_ENDS]
+
+
+# ------------------------------------------------------------------------------------------ inserted enables
+EN_EDGES = ["pos", "neg"]
+EN_RESETS = ["sync", "async"]                       # kind of the domain's own reset (never asserted here)
+EN_CONTENTS = ["P", "A", "PA", "PR"]                # Print only / Assert+Assume only / both / Print + a register (control group)
+# where the checker statements and the driver of the watched register w live:
+#   sub       checker = wrapped submodule of the top module; w driven in the top module (outside the wrapper)
+#   subsub    wrapped submodule `mid` holds nothing but the checker as ITS submodule; w driven in the top module
+#   subsub_w  as subsub, but w is driven in `mid` (inside the wrapper, in another fragment than the checker)
+#   same      checker statements and the driver of w in one wrapped submodule (same fragment)
+EN_PLACES = ["sub", "subsub", "subsub_w", "same"]
+# none | rst = ResetInserter(srst) | en = EnableInserter(en1) | en_dict = EnableInserter({"sync": en1})
+# | en_en = EnableInserter(en1)(EnableInserter(en2)(..)) | en_rst = EnableInserter(en1)(ResetInserter(srst)(..))
+EN_WRAPPERS = ["none", "rst", "en", "en_dict", "en_en", "en_rst"]
+
+
+def enable_descs(tier):
+    return [{"edge": e, "reset": r, "content": c, "place": p, "wrapper": w}
+            for e in EN_EDGES for r in EN_RESETS for c in EN_CONTENTS for p in EN_PLACES for w in EN_WRAPPERS]
+
+
+def enable_inputs(desc):
+    """names of the input signals an action sets (in packing order, LSB first); d is 2 bits, the others 1 bit"""
+    names = ["d"]
+    if desc["wrapper"] in ("en", "en_dict", "en_en", "en_rst"):
+        names.append("en1")
+    if desc["wrapper"] == "en_en":
+        names.append("en2")
+    if desc["wrapper"] in ("rst", "en_rst"):
+        names.append("srst")
+    return names
